@@ -131,6 +131,18 @@ Theorem C01_exact_number_of_winners_prf_batch_partial : forall A S (ZL : zlike A
 Proof. exact count_winners_prf_any. Qed.
 Print Assumptions C01_exact_number_of_winners_prf_batch_partial.
 
+(* ... and the parametric wigm rule WITH defeat_batch=zero: no hypothesis on cf_batch_zero.  The zero batch is only taken when
+   "hopefuls - batch >= seats left to fill" (C07_zero_batch_leaves_enough_candidates), so the seats can still be filled after it
+   (Proofs/WinnersZero.v) *)
+From Droop Require Import Proofs.WinnersZero.
+Theorem C01_exact_number_of_winners_wigm_zero_batch_partial : forall A S (ZL : zlike A S) cfg,
+  cf_method cfg = MWigm -> exact A = false -> 0 <= cf_nballots cfg -> 0 <= cf_nseats cfg ->
+  forall pr fuel s k, wf_profile pr -> cf_nballots cfg = ballot_total pr ->
+  exec (@crashed A) fuel (count_cmd A cfg RWigm) (init_state A cfg pr) = Some (s, k) -> k <> Abort ->
+  nlen (electeds A s) = Z.min (cf_nseats cfg) (nlen (eligibles A s)).
+Proof. exact count_winners_wigm_any. Qed.
+Print Assumptions C01_exact_number_of_winners_wigm_zero_batch_partial.
+
 (* NO WITHDRAWN CANDIDATE IS CREDITED WITH A VOTE (third clause), at the end of every count that ends without a crash:
    the Gregory family (part of the whole-run invariant of C02/C06) and meek / warren (candidates that are neither hopeful
    nor elected hold nothing). *)
@@ -217,3 +229,13 @@ Theorem C01_exact_number_of_winners_cfer_for_every_accepted_file : forall A S (Z
   nlen (electeds A s) = Z.min (cf_nseats cfg) (nlen (eligibles A s)).
 Proof. exact accepted_winners_cfer. Qed.
 Print Assumptions C01_exact_number_of_winners_cfer_for_every_accepted_file.
+
+(* wigm with any defeat_batch option and wigm-prf with or without sure-loser batches, for every accepted file *)
+Theorem C01_exact_number_of_winners_any_batch_option_for_every_accepted_file : forall A S (ZL : zlike A S) cfg,
+  cf_method cfg = MWigm -> exact A = false -> 0 <= cf_nseats cfg ->
+  forall r, r = RWigm \/ r = RWigmPrf ->
+  forall text p fuel s k, parse_file text = Ok p -> p_linesEq p = [] -> cf_nballots cfg = p_nBallots p ->
+  exec (@crashed A) fuel (count_cmd A cfg r) (init_state A cfg (to_count_profile p)) = Some (s, k) -> k <> Abort ->
+  nlen (electeds A s) = Z.min (cf_nseats cfg) (nlen (eligibles A s)).
+Proof. exact accepted_winners_any. Qed.
+Print Assumptions C01_exact_number_of_winners_any_batch_option_for_every_accepted_file.
